@@ -536,7 +536,7 @@ def run(ctx):
         depth, dev, budget = 4, 2, 240
     else:
         system = System(EDITS_THOROUGH, SEEDS_THOROUGH)
-        depth, dev, budget = 5, 3, 1500
+        depth, dev, budget = 5, 3, 600
     stats = explore.explore(ctx, system, depth, dev, deadline=t0 + budget)
     # second search from a populated registry (foo prefixable, bar commensurable with it): seed / edit / seed
     # orders that need two user symbols to exist do not spend the edit budget on creating them
